@@ -12,7 +12,7 @@ RULE = ("random problems (3 geometries with parameters in their valid ranges x 7
 
 
 def run(ctx):
-    ctx.prove(extra_modules=["GMGProofs.Props.C03c", "GMGProofs.Props.C10g"])  # C10g: give = take for WHOLE cycles (composition of C03, C04g, C06g, C07g)
+    ctx.prove(extra_modules=["GMGProofs.Props.C03c", "GMGProofs.Props.C10g", "GMGProofs.Props.C10i"])  # C10g: give = take for WHOLE cycles (composition of C03, C04g, C06g, C07g)
     h = ctx.build_harness("h_ops")
     if ctx.tier == "quick":
         ctx.pipe([h, "residual", "25", "17", "32"], "residual")
